@@ -100,6 +100,51 @@ theorem revoke_keeps (m : KeyMeta) :
     KeepsRow (fun r => if r.kid = m.kid ∧ r.created = m.created then { r with revoked := true } else r) := by
   intro r; dsimp only; split <;> exact ⟨rfl, rfl, rfl, rfl⟩
 
+/-- a row update that keeps the key `(kid, created)` of every row. -/
+def KeepsKey (f : Row → Row) : Prop := ∀ r, (f r).kid = r.kid ∧ (f r).created = r.created
+
+theorem findRow_map' {f : Row → Row} (hf : KeepsKey f) (s : List Row) (m : KeyMeta) :
+    findRow (s.map f) m = (findRow s m).map f := by
+  induction s with
+  | nil => rfl
+  | cons r t ih =>
+    unfold findRow at ih ⊢
+    simp only [List.map_cons, List.find?_cons]
+    rw [(hf r).1, (hf r).2]
+    split
+    · rfl
+    · exact ih
+
+theorem corruptRow_keepsKey (m : KeyMeta) (dp : Bool) :
+    KeepsKey (fun r => if r.kid = m.kid ∧ r.created = m.created then
+      (if dp then { r with parent := none } else { r with enc := .junk 2 }) else r) := by
+  intro r; dsimp only; split
+  · split <;> exact ⟨rfl, rfl⟩
+  · exact ⟨rfl, rfl⟩
+
+/-- what survives an out-of-band corruption of a stored row: the store is still a function of
+`(kid, created)`, no row carries the stamp 0, and every row with another key is untouched.
+(`RowGood` of the hit row and of the intermediate keys below a hit system key, and `Coherent` for
+cache entries filed under the hit key, do NOT survive: C01/C02 exclude `corruptRow`; C07 does not
+need them.) -/
+theorem corruptRow_survivors {w : World} (m : KeyMeta) (dp : Bool)
+    (hu : ∀ r, r ∈ w.store → findRow w.store ⟨r.kid, r.created⟩ = some r) (hz : ∀ r, r ∈ w.store → r.created ≠ 0) :
+    (∀ r, r ∈ (corruptRow m dp w).2.store → findRow (corruptRow m dp w).2.store ⟨r.kid, r.created⟩ = some r) ∧
+    (∀ r, r ∈ (corruptRow m dp w).2.store → r.created ≠ 0) ∧
+    (∀ r, r ∈ w.store → ¬ (r.kid = m.kid ∧ r.created = m.created) → r ∈ (corruptRow m dp w).2.store) := by
+  have hf := corruptRow_keepsKey m dp
+  refine ⟨?_, ?_, ?_⟩
+  · intro r' hr'
+    obtain ⟨r, hr, rfl⟩ := List.mem_map.mp hr'
+    show findRow (w.store.map _) _ = _
+    rw [findRow_map' hf, (hf r).1, (hf r).2, hu r hr]; rfl
+  · intro r' hr'
+    obtain ⟨r, hr, rfl⟩ := List.mem_map.mp hr'
+    rw [(hf r).2]; exact hz r hr
+  · intro r hr hne
+    apply List.mem_map.mpr
+    exact ⟨r, hr, by rw [if_neg hne]⟩
+
 /-! ### the clock condition -/
 
 /-- the history started at `t`, one second after the epoch at least, and every factory's timestamp
